@@ -59,6 +59,19 @@ def localInsert (s : State) (e : Entry) : State × Tables.InsertResult :=
   | (t', .inserted n) => (emit { s with t := t' } { entry := e, remote := false }, .inserted n)
   | (_, .notInserted) => (s, .notInserted)
 
+/-- `Replica::insert` / `delete_prefix` through the open replica: the write capability is needed
+(the copy of the capability an open replica holds equals the stored one, C14 `OpenInv`) -/
+def localInsertCap (s : State) (e : Entry) : State × Tables.InsertResult :=
+  match Tables.nsGet s.t e.ns with
+  | some (1, _) => localInsert s e
+  | some _ => (s, .readOnly)
+  | none => (s, .notFound)
+
+/-- `ImportNamespace` while the replica is open: the capability row (and the open copy) change,
+the subscribers stay -/
+def importCap (s : State) (ns : Bytes) (kind : Nat) (raw : Bytes) : State :=
+  { s with t := (Tables.importNamespace s.t ns kind raw).1 }
+
 /-- `Replica::insert_remote_entry` -/
 def remoteInsert (s : State) (ns : Bytes) (now : Nat) (e : Entry) (peer : Bytes) (status : Nat) :
     State × Replica.InsertResult :=
